@@ -21,6 +21,11 @@ which the minimally repaired code is right):
   onset/duration fields and `pitch` present), a Part / Score / PerformedPart / Performance, every name VALID_KEY_PROFILES
   lists for "the three key-profile sets", `return_sorted_keys`.  An array lacking the selected unit's duration field (or
   `pitch`) may be rejected (ValueError) - that is compared with the model, not an oracle failure.
+* the same phrases for every documented way of passing OPTIONS: `estimate_spelling(x, method="ps13s1", K_pre=.., K_post=..)` and
+  `estimate_key(x, method="krumhansl", key_profiles=<name in VALID_KEY_PROFILES>, return_sorted_keys=<bool>)` must answer (kind
+  `opt`); any other method, keyword or extra positional argument may be rejected - which calls ARE rejected is compared with the
+  model (`estimateSpellingOpts`, `estimateKeyOpts`), not judged by the oracle.  "At most a double accidental" is demanded only
+  when K_post >= 1 (with K_post = 0 the claim is false for the algorithm itself, see PARTIAL).
 * "a score imported from MIDI contains exactly the file's pitches": the multiset of Note.midi_pitch
   over all parts (tied chains counted once) equals the multiset of note-on/off pairs of the file - for every combination
   of part_voice_assign_mode, estimate_voice_info, estimate_key, quantization_unit and assign_note_ids.
@@ -38,28 +43,43 @@ from core import Eval
 
 PROPERTY = "C17"
 DRIVER = "drv_c17"
-PROPS = ["PartituraModel.Props.C17", "PartituraModel.Props.C17Search", "PartituraModel.Props.C17Options"]
+PROPS = ["PartituraModel.Props.C17", "PartituraModel.Props.C17Search", "PartituraModel.Props.C17Options",
+         "PartituraModel.Props.C17Tables", "PartituraModel.Props.C17Float", "PartituraModel.Props.C17Dispatch",
+         "PartituraModel.Props.C17Stable"]
 TRUSTED = [
     "VoSA is modelled completely (Model/Vosa.lean) over exact rationals; the only arithmetic on times in the code is "
     "offset = onset + duration in the field's dtype (binary32/64/int): the offsets VSNote computed are captured and handed "
-    "to the model as a column, everything else compares times",
+    "to the model as a column, everything else compares times (when the captured offsets are the exact sums the model with "
+    "exact sums, Vosa.estimateVoicesExact, is compared as well: stream voicesxx)",
     "object identity of VSNote / NoteStream / Contig / Voice (the code shares mutable objects) is modelled by row numbers and "
     "stream numbers; set iteration order of est_best_connections' unassigned streams (only used for commuting increments)",
     "np.ma masked argmin: masked entries are +inf, first minimum wins, index 0 when everything is masked (compared on random "
     "matrices including the everything-masked case)",
     "Contig.offset / Contig.duration are computed by the code but never read: not modelled",
-    "np.corrcoef in binary64 (and float32 duration sums) vs the exact rational correlation order of the model: "
-    "the argmax is compared unless the exact top-two margin is < 1e-9 (1e-4 when float32 sums are inexact); the full ranking of "
-    "return_sorted_keys is compared when every adjacent gap is above the tolerance",
-    "binary64 evaluation of the three octave distances in compute_morphetic_pitch (model exact; the only exact tie "
-    "chroma 6 / morph 0 is representable exactly)",
+    "np.corrcoef in binary64 (and float32 duration sums): the 24 numbers _similarity_with_pitch_profile returns are compared "
+    "with the model's exact correlations (stream corrs, signed squares, 1e-11) whenever the duration sums are exact; where they "
+    "are within 1e-12 and the exact margin exceeds 2e-12 the agreement of the code's argmax with the model's answer follows from "
+    "C17.key_argmax_stable (the evidence counts these cases); otherwise the argmax is compared unless the exact top-two margin "
+    "is < 1e-9 (1e-4 when float32 sums are inexact); the full ranking of return_sorted_keys is compared when every adjacent gap "
+    "is above the tolerance",
+    "numpy's float64 + - / are IEEE 754 correctly rounded (nearest, ties to even) and compute_morphetic_pitch / p2pn meet no "
+    "overflow or subnormal: Model/C17Float.lean mirrors each binary64 operation of these two functions over dyadic integers; "
+    "that its rounding IS round-to-nearest-even is proved (C17.binary64_round / _add / _sub / _div, leading_bit) and also compared "
+    "with the machine's floats (streams fl / fop / lg); integer-valued float intermediates (octaves, chroma, 12 * floor(mp / 7), "
+    "the subtraction of UND_CHROMA) are exact in binary64 below 2^53 and kept as integers",
     "numpy argsort(kind='mergesort'/'stable') and Python sorted/list.sort stable, default argsort an arbitrary order of ties, "
     "np.argmax/argmin first extremum, np.unique sorted, np.mod/np.floor floor semantics, dict/defaultdict insertion order, "
     "statistics.mode of an all-None list is None",
+    "Python's binding of method= / *args / **kwargs to the parameters of ps13s1 / ks_kid (TypeError on an unknown keyword or on "
+    "a positional argument that collides with a keyword; UnboundLocalError for a method that binds no algorithm): the model "
+    "takes the parameter lists from the signatures (Gen/C17Tables.lean) and mirrors these rules",
     "note_array construction of Part / Score / PerformedPart / Performance (ensure_notearray path): the model starts from the "
     "fields of the note array the object yields (its own properties are C03/C14)",
     "mido file (de)serialisation; add_measures / tie_notes / find_tuplets of the MIDI importer are only observed "
     "through Note.midi_pitch, spelling and voice (their own properties are C04/C11); `quantize` is np.round (half to even)",
+    "translators harness/translate_ps13.py, translate_c17.py: they read the tables by ROLE from the live source (ast, aliases and "
+    "module constants followed) and the live matrices; what they cannot read is emitted with its last known value and named in "
+    "PS13_PINNED / C17_PINNED, which breaks C17.ps13_tables_extracted / c17_tables_extracted while the driver keeps building",
 ]
 PARTIAL = [
     "voice estimation is now proved total and well-formed for the MODEL of the search (vosa_total, voices_total: no "
@@ -67,31 +87,47 @@ PARTIAL = [
     "contigs and streams - compared on every generated case), not a proof",
     "key_transpose / sorted_keys_head need a unique exact maximum (hypothesis UniqueMax; an example proves the claim false "
     "without it: one note is equally C major and C minor for the cbms profiles); ties are decided by binary64 noise in the code",
-    "the model's comparison is proved to be the order of the real-number correlation coefficients "
-    "(key_order_is_correlation_order); that binary64 np.corrcoef has the same argmax / ranking is compared, not proved",
+    "binary64 np.corrcoef vs the exact correlation order: key_argmax_stable / key_order_stable prove that the code's argmax / "
+    "ranking IS the model's under two side conditions - the 24 computed numbers are eps-close to the real correlations and the "
+    "exact margin exceeds 2 eps - which the harness evaluates on every case (eps = 1e-12); an a-priori error bound for "
+    "np.corrcoef (which would discharge the first condition for all inputs) is not proved, and cases with a smaller margin or "
+    "inexact float32 duration sums stay compared only",
+    "spelling_binary64 (the binary64 steps of ps13 take the same decisions as exact arithmetic) is proved for MIDI pitches "
+    "0..127, a superset of the property's 21..108, by kernel evaluation of the whole table; it is false far outside (example at "
+    "2^51 semitones in Props/C17Float.lean)",
     "double_acc_bound needs K_post >= 1 (default 40): with K_post = 0 the first note's window is empty and the model "
     "(like the code) can produce six sharps on an A for an E flat (example in Props/C17.lean)",
     "estimate_key(key_profiles=<matrix>) (an ndarray instead of a name) raises in the validation of estimate_key "
-    "(`array not in list`); only ks_kid accepts a matrix - outside the property's 'three key-profile sets', not covered",
+    "(`array not in list`); only ks_kid accepts a matrix - outside the property's 'three key-profile sets', not covered; "
+    "a string passed as return_sorted_keys (its truth value) is not modelled",
 ]
 RULE = ("random note arrays (1-400 rows; simultaneous, overlapping, zero-length notes; shuffled; score units "
         "beat/quarter/div and performance units sec/tick; float32/float64/int fields) for ps13 (pitches 21-108), "
+        "plus the ps13 family `dom`: every pair (pitch class of the first note, pitch class dominating every context window) with "
+        "all twelve pitch classes present, so that the real code reaches every entry of the 12^3 table of double_acc_table; "
         "voices (pitches 0-127, both modes; the real VoSA's input, offsets, contigs/streams and output captured and compared "
         "with the modelled search, plus the wrapper+search end to end) and key (three profile sets under every accepted name, "
-        "return_sorted_keys); arrays holding several unit families at once / missing fields / extra fields (field selection); "
-        "Part, Score, PerformedPart, Performance inputs; pairwise_cost on note lists with shared objects and skip flags, "
-        "est_best_connections on random matrices in both modes; MIDI files written with mido from such arrays, loaded with all "
-        "six part_voice_assign modes x estimate_voice_info x estimate_key x quantization_unit x assign_note_ids; whole finite "
-        "tables (KEYS, chroma x morph, profile-name tables); distinct = distinct case content; non-trivial = at least two rows "
-        "(or a table case)")
-LEVEL_TEXT = ("Lean 4 theorems over ALL note lists about an executable model of ps13 stage 1 (complete), of voice estimation "
+        "return_sorted_keys, the 24 correlations themselves); arrays holding several unit families at once / missing fields / "
+        "extra fields (field selection); method / positional / keyword arguments of estimate_spelling and estimate_key, valid and "
+        "invalid (kind opt); Part, Score, PerformedPart, Performance inputs; pairwise_cost on note lists with shared objects and "
+        "skip flags, est_best_connections on random matrices in both modes; MIDI files written with mido from such arrays, loaded "
+        "with all six part_voice_assign modes x estimate_voice_info x estimate_key x quantization_unit x assign_note_ids; binary64 "
+        "rounding of random rationals, exact ties and the operands of compute_morphetic_pitch against the machine's floats (kind "
+        "flt); whole finite tables (KEYS, chroma x morph incl. pitches far outside the keyboard where rounding matters, "
+        "profile-name tables); distinct = distinct case content; non-trivial = at least two rows (or a table case)")
+LEVEL_TEXT = ("Lean 4 theorems over ALL note lists about an executable model of ps13 stage 1 (complete, INCLUDING the binary64 "
+              "operations of compute_morphetic_pitch and p2pn: the rounding model is proved to be IEEE round-to-nearest-even and "
+              "to take the decisions of exact arithmetic on every MIDI pitch), of voice estimation "
               "INCLUDING the contig-mapping search (the modelled search is proved never to raise on a non-empty array and to answer "
               "every id exactly once, so one positive, gaplessly numbered voice per note is a theorem without hypotheses about the "
-              "search), of the field/unit selection and profile-name "
-              "tables of the wrappers, and of the exact-rational Krumhansl-Schmuckler argmax and ranking; the model is tied to the "
-              "code by regenerating ps13's tables, KEYS, the profiles, MAX_COST, the name tables and the unit-preference chain from "
-              "the source on each run and by an exact differential run (complete VoSA results included) on random arrays, objects "
-              "and MIDI files.")
+              "search), of the field/unit selection, the method/args/kwargs dispatch and profile-name "
+              "tables of the wrappers, and of the exact-rational Krumhansl-Schmuckler argmax and ranking (proved to be the code's "
+              "binary64 argmax whenever the computed correlations are close and the margin is not tiny - both checked per case); "
+              "the model is tied to the "
+              "code by regenerating ps13's tables (found by role in the source), KEYS, the profiles and the live 24 x 12 matrices, "
+              "MAX_COST, the name tables, method tuples, keyword lists and the unit-preference chain from "
+              "the source on each run (a table that cannot be read is pinned and reported as a broken obligation) and by an exact "
+              "differential run (complete VoSA results included) on random arrays, objects and MIDI files.")
 SEARCH_LIMIT = 1500
 
 STEP_PC = {"C": 0, "D": 2, "E": 4, "F": 5, "G": 7, "A": 9, "B": 11}
@@ -130,6 +166,50 @@ def gen_rows(rng, n, lo, hi, zero=True):
         else:
             p = rng.randint(lo, hi)
         rows.append([t, rng.choice(durs), p])
+    rng.shuffle(rows)
+    return rows
+
+
+def dominated_share(rows, dom, kpre=10, kpost=40):
+    """the share of ps13's context windows (rows in onset / pitch order; window of note i = notes i-kpre .. i+kpost-1)
+    in which pitch class `dom` outnumbers all other pitch classes together"""
+    pcs = [r[2] % 12 for r in sorted(rows, key=lambda r: (r[0], r[2]))]
+    n = len(pcs)
+    good = 0
+    for i in range(n):
+        w = pcs[max(0, i - kpre):min(n, i + kpost)]
+        good += 2 * sum(1 for x in w if x == dom) > len(w)
+    return good / max(1, n)
+
+
+def gen_dominated(rng, pc0, dom, variant):
+    """rows for ps13 that reach one line (first-note chroma, *, tonic chroma) of the 12 x 12 x 12 table of
+    `double_acc_table` through the real code: the FIRST note (alone at the earliest onset) has pitch class `pc0`;
+    after it every pitch class occurs, in random order and octaves, among so many notes of pitch class `dom` that
+    `dom` outnumbers all other pitch classes together in every context window - so ps13 takes `dom` as the tonic
+    of every note and note j receives morph_for_tonic(first chroma, chroma j, dom).  Variants: 0 = one onset per
+    note, 1 = the other pitch classes twice and chords (several notes per onset), 2 = a long piece whose windows
+    (10 before, 40 after) slide, the non-dominant notes spread out."""
+    def pitch(pc):
+        return rng.choice([q for q in range(pc, 128, 12) if 21 <= q <= 108])
+
+    others = list(range(12)) * (2 if variant == 1 else 1)
+    if variant == 2:
+        others = [rng.randrange(12) for _ in range(rng.randint(12, 30))]
+    rng.shuffle(others)
+    rows = []
+    for attempt in range(20):
+        body = []
+        for pc in others:       # so many dominant notes between two others that every window is dominated
+            body += [dom] * rng.randint(2 + attempt // 4, 4 + attempt // 2) + [pc]
+        body += [dom] * (4 + attempt)
+        rows = [[0, rng.choice([1, 2, 4]), pitch(pc0)]]
+        t = 0
+        for pc in body:
+            t += 1 if variant != 1 or rng.random() < 0.6 else 0
+            rows.append([max(t, 1), rng.choice([0, 1, 1, 2, 4]), pitch(pc)])
+        if dominated_share(rows, dom) == 1.0:
+            break
     rng.shuffle(rows)
     return rows
 
@@ -179,6 +259,14 @@ def cases(rng, tier):
             yield {"k": "ps", "unit": unit, "dt": dt, "step": step, "rows": [r if 21 <= r[2] <= 108 else [r[0], r[1], 60] for r in rows], "kpre": None, "kpost": None, "pseed": 1}
             yield {"k": "vo", "unit": unit, "dt": dt, "step": step, "rows": rows}
             yield {"k": "key", "unit": unit, "dt": dt, "step": step, "rows": [r if 21 <= r[2] <= 108 else [r[0], r[1], 60] for r in rows], "s": 5, "scale": [3, 1], "oseed": 3}
+    # ---- ps13: first-note pitch class x dominating pitch class (every line of the 12^3 morph table, see gen_dominated)
+    # (the witness of seeded change C17-i - first note E flat, D-dominated window holding a G sharp - is corpus/C17/)
+    for pc0 in range(12):
+        for dom in range(12):
+            for variant in ((0,) if tier == "quick" else (0, 1, 2) if tier == "thorough" else (rng.randrange(3),)):
+                unit, dt, step = rand_unit(rng)
+                yield {"k": "ps", "unit": unit, "dt": dt, "step": step, "rows": gen_dominated(rng, pc0, dom, variant),
+                       "kpre": None, "kpost": None, "pseed": rng.randrange(10**6), "fam": "dom", "pc0": pc0, "dom": dom, "variant": variant}
     # ---- random arrays
     n_ps, n_vo, n_key, n_midi, n_rn = (250, 220, 250, 90, 40) if not big else (3500, 2500, 3500, 900, 600)
     n_pc, n_mu, n_obj = (60, 70, 40) if not big else (800, 900, 500)
@@ -238,6 +326,28 @@ def cases(rng, tier):
         yield {"k": "pc", "prev": prev, "next": nxt, "mat": [[rng.choice(vals) for _ in range(C)] for _ in range(R)]}
     for _ in range(n_rn):
         yield {"k": "rn", "v": [rng.randint(-3, 8) for _ in range(rng.randint(1, 30))]}
+    # ---- method / *args / **kwargs of estimate_spelling and estimate_key
+    for _ in range(60 if tier == "quick" else 600 if tier == "thorough" else 100):
+        unit, dt, step = rand_unit(rng)
+        skw = {}
+        for nm in (["K_pre", "K_post"] if rng.random() < 0.8 else ["K_pre", "K_post", "Kpre", "k_post", "K", "key_profiles"]):
+            if rng.random() < 0.4:
+                skw[nm] = rng.choice([0, 1, 2, 5, 10, 40, 60])
+        kkw = []
+        if rng.random() < 0.6:
+            kkw.append(["key_profiles", "s", rng.choice(["kk", "krumhansl_kessler", "temperley", "tp", "kostka_payne", "kp"] * 3 + ["ks", "cmbs", "KP", ""])]
+                       if rng.random() < 0.95 else ["key_profiles", "b", rng.random() < 0.5])
+        if rng.random() < 0.5:
+            kkw.append(["return_sorted_keys", "b", rng.random() < 0.6])
+        if rng.random() < 0.08:
+            kkw.append([rng.choice(["similarity_func", "normalize_distribution", "K_pre", "method_", "sorted"]), "b", True])
+        yield {"k": "opt", "unit": unit, "dt": dt, "step": step, "rows": gen_rows(rng, rand_n(rng, tier, 40), 21, 108),
+               "sm": rng.choice([None] * 4 + ["ps13s1"] * 4 + ["ps13", "PS13S1", "ps13s2", ""]), "skw": skw,
+               "km": rng.choice([None] * 4 + ["krumhansl"] * 4 + ["temperley", "ks", "Krumhansl", ""]),
+               "nargs": rng.choice([0] * 10 + [1, 2]), "kkw": kkw}
+    # ---- binary64: the model's rounding (Model/C17Float.lean) against the machine's
+    for _ in range(6 if tier == "quick" else 60 if tier == "thorough" else 0):
+        yield {"k": "flt", "seed": rng.randrange(10**9), "n": 60}
 
 
 # ------------------------------------------------------------------ helpers
@@ -290,7 +400,7 @@ def fmt_spellings(rows):
 def evaluate(d):
     k = d["k"]
     return {"ps": ev_ps, "vo": ev_vo, "key": ev_key, "midi": ev_midi, "tbl": ev_tbl, "cm": ev_cm, "rn": ev_rn,
-            "pc": ev_pc, "mu": ev_mu, "obj": ev_obj}[k](d)
+            "pc": ev_pc, "mu": ev_mu, "obj": ev_obj, "flt": ev_flt, "opt": ev_opt}[k](d)
 
 
 def ev_tbl(d):
@@ -361,8 +471,82 @@ def ev_cm(d):
         for c, a, b, s, o in zip(cs, mp, alter, step, octave):
             ev.requests.append("cm %d %d" % (c, m))
             ev.impl.append(W.f_tuple(W.f_int(a), str(s), W.f_int(b), W.f_int(o)))
+            ev.requests.append("cmf %d %d" % (c, m))      # the binary64 model: same answer on the MIDI range
+            ev.impl.append(W.f_tuple(W.f_int(a), str(s), W.f_int(b), W.f_int(o)))
             if spelled_midi(s, b, o) != c + 21:
                 ev.oracle.append("spelling: p2pn(%d, morph %d) = %r sounds %d, not %d" % (c, m, (str(s), int(b), int(o)), spelled_midi(s, b, o), c + 21))
+    # far outside every keyboard the rounding of `octave + chroma / 12` changes the octave picked: the binary64 model
+    # follows the code there, the exact model does not (C17.morphetic_pitch_binary64 is stated for MIDI pitches)
+    far = [12 * 2 ** k + c for k in (20, 40, 45, 46, 47, 48, 49) for c in range(12)] + [1688849860263944, -1688849860263944 + 3]
+    for m in range(7):
+        ocp = np.column_stack((np.zeros(len(far)), np.array(far, dtype=float)))
+        mp = PS.compute_morphetic_pitch(ocp, np.full(len(far), m, dtype=int))
+        step, alter, octave = PS.p2pn(ocp[:, 1], mp.reshape(-1,))
+        for c, a, b, s, o in zip(far, mp, alter, step, octave):
+            ev.requests.append("cmf %d %d" % (c, m))
+            ev.impl.append(W.f_tuple(W.f_int(a), str(s), W.f_int(b), W.f_int(o)))
+    return ev
+
+
+def rand_float(rng):
+    """a binary64 number: 53-bit significand (sometimes short, sometimes all ones), exponent near the ones ps13 meets or far"""
+    kind = rng.random()
+    if kind < 0.1:
+        return float(rng.randint(-130, 130))
+    m = rng.getrandbits(53) | (1 << 52)
+    if kind < 0.3:
+        m = (m >> rng.randint(1, 52)) << rng.randint(0, 5)
+    elif kind < 0.4:
+        m = (1 << 53) - 1 - rng.randrange(3)
+    e = rng.choice([-62, -60, -56, -55, -54, -53, -52, -51, -50, -49, -48, -45, -40, -30, 0, 10, 40, 200, -300])
+    x = math.ldexp(m, e)
+    return -x if rng.random() < 0.4 else x
+
+
+def ev_flt(d):
+    """`fl` (round to nearest, ties to even), binary64 + - / floor <, and the leading-bit search of Model/C17Float.lean
+    against Python's floats (IEEE 754 binary64 on every supported machine; `int / int` and `Fraction.__float__` are
+    correctly rounded)"""
+    import random
+
+    rng = random.Random(d["seed"])
+    ev = Eval(key="flt:%d" % d["seed"])
+    for _ in range(d["n"]):
+        r = rng.random()
+        if r < 0.35:        # arbitrary rationals
+            num = rng.choice([1, -1]) * rng.getrandbits(rng.choice([3, 10, 40, 64, 90, 200]))
+            den = rng.getrandbits(rng.choice([1, 3, 10, 40, 64, 90, 200])) + 1
+            fr = Fraction(num, den)
+        elif r < 0.6:       # exact ties and their neighbours: (2m + 1) * 2^(e-1) lies halfway between m 2^e and (m+1) 2^e
+            m = rng.getrandbits(52) | (1 << 52)
+            e = rng.randint(-80, 80)
+            fr = Fraction(2 * m + 1, 2) * Fraction(2) ** e + rng.choice([0, 0, 0, 1, -1]) * Fraction(1, 3) * Fraction(2) ** (e - rng.choice([1, 30, 60, 200]))
+            fr = fr * rng.choice([1, -1])
+        elif r < 0.8:       # the quotients ps13 forms, and small integers
+            fr = Fraction(rng.randint(-200, 200), rng.choice([7, 12, 1, 84]))
+        else:
+            fr = Fraction(*rand_float(rng).as_integer_ratio())
+        ev.requests.append("fl %s" % W.q(fr))
+        ev.impl.append(W.f_rat(Fraction(*float(fr).as_integer_ratio())) if abs(fr) < Fraction(2) ** 1000 else "0")
+        x, y = rand_float(rng), rand_float(rng)
+        if rng.random() < 0.5:   # operands close to each other: cancellation in a - b, quotients near 1
+            y = x * (1 + rng.choice([1, -1, 3, 1000]) * 2.0 ** -rng.randint(30, 53))
+        if rng.random() < 0.3:   # the operands of compute_morphetic_pitch
+            o = rng.randint(-3, 10)
+            x = o + rng.randrange(12) / 12
+            y = (o + rng.choice([0, 1, -1])) + rng.randrange(7) / 7
+        fx, fy = Fraction(*x.as_integer_ratio()), Fraction(*y.as_integer_ratio())
+        for op, val in (("add", x + y), ("sub", x - y), ("div", x / y if y != 0 else None)):
+            ev.requests.append("fop %s %s %s" % (op, W.q(fx), W.q(fy)))
+            ev.impl.append("err" if val is None else W.f_rat(Fraction(*val.as_integer_ratio())))
+        ev.requests.append("fop lt %s %s" % (W.q(fx), W.q(fy)))
+        ev.impl.append("1" if x < y else "0")
+        if abs(x) < 2.0 ** 200:
+            ev.requests.append("fop floor %s 0" % W.q(fx))
+            ev.impl.append(W.f_int(math.floor(x)))
+        n = rng.getrandbits(rng.choice([1, 2, 8, 53, 64, 110, 255, 256, 511, 512, 513, 700])) + 1
+        ev.requests.append("lg %d" % n)
+        ev.impl.append(W.f_int(n.bit_length() - 1))
     return ev
 
 
@@ -399,7 +583,9 @@ def ev_ps(d):
     if kpost >= 1:   # the note lies in its own window (default K_post = 40)
         bad = [i for i, s in enumerate(sp) if abs(int(s["alter"])) > 2]
         if bad:
-            ev.oracle.append("spelling: alteration beyond a double accidental: note %d pitch %d -> %r" % (bad[0], int(a["pitch"][bad[0]]), tuple(sp[bad[0]])))
+            s = sp[bad[0]]
+            ev.oracle.append("spelling: alteration beyond a double accidental: note %d pitch %d -> %r (%d of %d notes)" % (
+                bad[0], int(a["pitch"][bad[0]]), (str(s["step"]), int(s["alter"]), int(s["octave"])), len(bad), len(sp)))
     prng = random.Random(d.get("pseed", 0))
     perm = list(range(len(a)))
     prng.shuffle(perm)
@@ -413,6 +599,8 @@ def ev_ps(d):
         ev.oracle.append("spelling frame: estimate_spelling modified its argument")
     # ---- inner stages, same sorted chroma array, on a sample of the cases
     if len(a) <= 60:
+        ev.requests.append("ps13x" + req[4:])       # the exact-rational model (the request above runs the binary64 one)
+        ev.impl.append(fmt_spellings(rows))
         order = sorted(range(len(a)), key=lambda i: (exact(on[i]), int(a["pitch"][i])))
         chroma = [int((int(a["pitch"][i]) - 21) % 12) for i in order]
         cva = PS.compute_chroma_vector_array(np.array(chroma, dtype=int), kpre, kpost)
@@ -519,6 +707,11 @@ def ev_vo(d):
             ev.requests.append("voicesx %s %s" % (W.b(mono), W.lst(
                 lambda r: "%d %s %s %s" % (int(r[0]), W.q(exact(r[1])), W.q(exact(r[2])), W.q(r[3])), list(zip(a["pitch"], on, du, alloff)))))
             ev.impl.append(W.f_list(W.f_int, v))
+            if all(alloff[i] == exact(on[i]) + exact(du[i]) for i in range(n)):
+                # the offsets the code computed are the exact sums: the model with exact sums must answer the same
+                ev.requests.append("voicesxx %s %s" % (W.b(mono), notes_tok))
+                ev.impl.append(W.f_list(W.f_int, v))
+                ev.info["exact_offsets"] = True
         else:
             ev.requests.append("vin %s %s" % (W.b(mono), notes_tok))
             ev.impl.append("VoSA called %d times" % len(cap.calls))
@@ -595,7 +788,19 @@ def ev_key(d):
     tp = np.where(tp < 21, tp + 12, tp)
     a_tr["pitch"] = tp
     for ps, arg in PROFILE_ARG.items():
-        name, e = call(estimate_key, a, key_profiles=arg)
+        seen_corrs = []
+        orig_sim = KI._similarity_with_pitch_profile
+
+        def spy(*aa, **kk):
+            out = orig_sim(*aa, **kk)
+            seen_corrs.append(out)
+            return out
+
+        KI._similarity_with_pitch_profile = spy
+        try:
+            name, e = call(estimate_key, a, key_profiles=arg)
+        finally:
+            KI._similarity_with_pitch_profile = orig_sim
         h, rs = exact_corrs(a["pitch"], du, mats[ps])
         if e:
             ev.oracle.append("key %s: estimate_key raised %s: %s" % (ps, type(e).__name__, str(e)[:100]))
@@ -616,6 +821,18 @@ def ev_key(d):
             ev.impl.append(name)
         else:
             ev.info["near_tie_" + ps] = margin
+        # ---- the 24 numbers np.corrcoef produced against the model's exact correlations: hypotheses (a) and (b) of
+        # C17.key_argmax_stable evaluated on this very case (eps = 1e-12); where both hold, the agreement of the code's
+        # argmax with the model's answer is a consequence of the theorem, not a comparison
+        rhat = seen_corrs[0] if len(seen_corrs) == 1 else None
+        if rhat is not None and len(rhat) == 24 and sums_exact:
+            rh = [float(x) for x in rhat]
+            ev.requests.append("corrs %s %s" % (ps, notes_tok))
+            ev.impl.append(("@approx", [None if x != x else math.copysign(x * x, x) for x in rh], 1e-11))
+            if rs is not None and all(x == x for x in rh):
+                eps = 1e-12
+                close = max(abs(x - y) for x, y in zip(rh, rs)) <= eps
+                ev.info["stable_" + ps] = "proved" if (close and margin > 2 * eps + 1e-15) else ("close-but-tied" if close else "not-close")
         # ---- invariances, on the implementation
         for tag, arr, shift in (("octave", a_oct, 0), ("scale", a_sc, 0), ("transpose", a_tr, s)):
             nm2, e2 = call(estimate_key, arr, key_profiles=arg)
@@ -904,10 +1121,12 @@ def estimators_on(ev, tag, obj, a, grid=None):
             ev.oracle.append("spelling %s: %d spellings for %d notes" % (tag, len(sp), n))
         for i, (pp, x) in enumerate(zip(a["pitch"], sp)):
             if str(x["step"]) not in STEP_PC or spelled_midi(x["step"], x["alter"], x["octave"]) != int(pp):
-                ev.oracle.append("spelling %s: note %d pitch %d spelled %r does not sound its pitch" % (tag, i, int(pp), tuple(x)))
+                ev.oracle.append("spelling %s: note %d pitch %d spelled %r does not sound its pitch" % (
+                    tag, i, int(pp), (str(x["step"]), int(x["alter"]), int(x["octave"]))))
                 break
             if abs(int(x["alter"])) > 2:
-                ev.oracle.append("spelling %s: alteration beyond a double accidental: note %d -> %r" % (tag, i, tuple(x)))
+                ev.oracle.append("spelling %s: alteration beyond a double accidental: note %d -> %r" % (
+                    tag, i, (str(x["step"]), int(x["alter"]), int(x["octave"]))))
                 break
 
 
@@ -976,6 +1195,84 @@ def ev_obj(d):
     return ev
 
 
+def ev_opt(d):
+    """`estimate_spelling(array, method=.., **kwargs)` and `estimate_key(array, method, *args, **kwargs)`: which calls are
+    accepted, which defaults apply, and what is answered"""
+    from partitura.musicanalysis import estimate_key, estimate_spelling
+
+    a = make_array(d)
+    unit = d["unit"]
+    ev = Eval(key="opt:%s" % h32(d))
+    tok = arr_tok(a)
+    names = key_names()
+    # ---- spelling
+    kw = dict(d["skw"])
+    if d["sm"] is not None:
+        kw["method"] = d["sm"]
+    sp, e = call(estimate_spelling, a, **kw)
+    ev.requests.append("psopt %s %s %s" % (W.opt(W.s, d["sm"]), W.lst(lambda x: "%s %d" % (W.s(x[0]), x[1]), sorted(d["skw"].items())), tok))
+    documented = d["sm"] in (None, "ps13s1") and set(d["skw"]) <= {"K_pre", "K_post"}
+    ev.info["opt_spelling"] = ("rejected" if e else "answered") + ("" if documented else " (outside the documented interface)")
+    if e:
+        ev.impl.append("err")
+        if documented:
+            ev.oracle.append("spelling options: estimate_spelling(method=%r, %r) raised %s: %s" % (d["sm"], d["skw"], type(e).__name__, str(e)[:80]))
+    else:
+        ev.impl.append(fmt_spellings(canon_spelling(a["onset_" + unit], a["pitch"], sp)))
+        if len(sp) != len(a):
+            ev.oracle.append("spelling options: %d spellings for %d notes" % (len(sp), len(a)))
+        for i, (p, x) in enumerate(zip(a["pitch"], sp)):
+            if str(x["step"]) not in STEP_PC or spelled_midi(x["step"], x["alter"], x["octave"]) != int(p):
+                ev.oracle.append("spelling options: note %d pitch %d spelled %r does not sound its pitch (%r)" % (
+                    i, int(p), (str(x["step"]), int(x["alter"]), int(x["octave"])), d["skw"]))
+                break
+        if d["skw"].get("K_post", 40) >= 1 and any(abs(int(x["alter"])) > 2 for x in sp):
+            ev.oracle.append("spelling options: alteration beyond a double accidental with %r" % (d["skw"],))
+    # ---- key
+    kkw = dict((nm, v) for nm, _, v in d["kkw"])
+    args = [d["km"] if d["km"] is not None else "krumhansl"] + [("kp", True, "kk")[i] for i in range(d["nargs"])]
+    if d["km"] is None and d["nargs"] == 0:
+        args = []
+    r, e = call(estimate_key, a, *args, **kkw)
+    ev.requests.append("keyopt %s %d %s %s" % (W.opt(W.s, d["km"]), d["nargs"], W.lst(
+        lambda x: "%s %s %s" % (W.s(x[0]), x[1], W.s(x[2]) if x[1] == "s" else W.b(x[2])), d["kkw"]), tok))
+    import partitura.utils.globals as G
+    documented = (d["km"] in (None, "krumhansl") and d["nargs"] == 0 and set(kkw) <= {"key_profiles", "return_sorted_keys"}
+                  and kkw.get("key_profiles", "kk") in G.VALID_KEY_PROFILES)
+    ev.info["opt_key"] = ("rejected" if e else "ranking" if isinstance(r, list) else "one name") + (
+        "" if documented else " (outside the documented interface)")
+    if e:
+        ev.impl.append("err")
+        if documented:
+            ev.oracle.append("key options: estimate_key(%r, %r) raised %s: %s" % (args, kkw, type(e).__name__, str(e)[:80]))
+    else:
+        # the answer itself is compared when the exact ranking has no near tie (binary64 decides those)
+        import partitura.musicanalysis.key_identification as KI
+        prof = kkw.get("key_profiles", "krumhansl_kessler")
+        mat = {"kk": KI.KRUMHANSL_KESSLER, "krumhansl_kessler": KI.KRUMHANSL_KESSLER, "temperley": KI.CMBS, "tp": KI.CMBS,
+               "kostka_payne": KI.KOSTKA_PAYNE, "kp": KI.KOSTKA_PAYNE}.get(prof)
+        ranked = isinstance(r, list)
+        if ranked and sorted(r) != sorted(names):
+            ev.oracle.append("key options: the ranking is not a permutation of the 24 key names: %r" % (r,))
+        if not ranked and r not in VALID_KEYS:
+            ev.oracle.append("key options: %r is not a valid key name" % (r,))
+        if ranked != bool(kkw.get("return_sorted_keys", False)):
+            ev.oracle.append("key options: return_sorted_keys=%r answered %s" % (kkw.get("return_sorted_keys"), type(r).__name__))
+        safe = False
+        if mat is not None:
+            _, rs = exact_corrs(a["pitch"], a["duration_" + unit], mat)
+            if rs is not None:
+                g = sorted(rs, reverse=True)
+                safe = (min(g[i] - g[i + 1] for i in range(23)) if ranked else g[0] - g[1]) >= 1e-4
+            else:
+                safe = not ranked
+        if safe:
+            ev.impl.append(W.f_list(str, r) if ranked else r)
+        else:
+            ev.requests.pop()
+    return ev
+
+
 def ev_pc(d):
     """`pairwise_cost` on lists of notes (shared objects, skip flags) and `est_best_connections` on a matrix, both modes"""
     import partitura.musicanalysis.voice_separation as VS
@@ -1025,7 +1322,7 @@ def finding_key(d, f):
 
 def shrink(d):
     k = d["k"]
-    field = "notes" if k == "midi" else ("rows" if k in ("ps", "vo", "key", "mu", "obj") else None)
+    field = "notes" if k == "midi" else ("rows" if k in ("ps", "vo", "key", "mu", "obj", "opt") else None)
     if field is None:
         return
     rows = d[field]
@@ -1082,7 +1379,17 @@ def distribution(descs, results):
     quant = sum(1 for d in descs if d["k"] == "midi" and d.get("qu"))
     sorted_skipped = sum(1 for r in results for kk in r.get("info", {}) if kk.startswith("sorted_near_tie"))
     objs = Counter(d["kind"] for d in descs if d["k"] == "obj")
+    domc = [d for d in descs if d.get("fam") == "dom" and "pc0" in d]
+    optsp = Counter((r.get("info") or {}).get("opt_spelling") for r in results if (r.get("info") or {}).get("opt_spelling"))
+    optkey = Counter((r.get("info") or {}).get("opt_key") for r in results if (r.get("info") or {}).get("opt_key"))
+    stable = Counter(v for r in results for kk, v in (r.get("info") or {}).items() if kk.startswith("stable_"))
     return {"midi_quantized": quant, "sorted_key_comparisons_skipped_as_near_ties": sorted_skipped, "object_inputs": dict(objs),
             "by_kind": dict(c), "rows": dict(sizes), "cases_with_zero_length_notes": zero, "units": dict(units),
             "key_comparisons_skipped_as_near_ties": near, "vosa_outputs_not_covering_ids": uncovered,
-            "midi_modes": dict(modes)}
+            "midi_modes": dict(modes),
+            "key_argmax_stable_hypotheses_checked (eps=1e-12)": dict(stable),
+            "voice_cases_with_exact_offsets (stream voicesxx)": sum(1 for r in results if (r.get("info") or {}).get("exact_offsets")),
+            "estimate_spelling_option_calls": dict(optsp), "estimate_key_option_calls": dict(optkey),
+            "ps13_dominated_window_cases": len(domc),
+            "ps13_first_pc_x_dominant_pc_pairs_reached": len(set((d["pc0"], d["dom"]) for d in domc)),
+            "ps13_dominated_variants": dict(Counter(d["variant"] for d in domc))}
